@@ -50,6 +50,11 @@ func nopanicConfigs(r *rng, n int) []proxyCfg {
 	// sessions without an e-mail address (htpasswd) / with odd e-mail claims against every auth-only constraint
 	out = append(out, proxyCfg{Htpasswd: map[string]string{"bob": "pw"}, HtpasswdGroups: []string{"dev"}, SkipJwtBearer: true, EmailClaim: "sub", InjectRequest: defaultInject(), InjectResponse: defaultInject()})
 	out = append(out, proxyCfg{Htpasswd: map[string]string{"bob": "pw"}, SkipJwtBearer: true, EmailDomains: []string{"example.com", ".example.org"}, InjectRequest: defaultInject()})
+	// option values at the edge of what validation accepts: spellings of cookie-samesite other than the documented lower-case ones.
+	// Validation rejects them today ("cfg:rejected"); whatever it lets through must be handled by every cookie-writing request
+	for _, ss := range []string{"Strict", "LAX", "None", "nOnE"} {
+		out = append(out, proxyCfg{CookieSameSite: ss, InjectRequest: defaultInject(), Htpasswd: map[string]string{"bob": "pw"}})
+	}
 	for len(out) < n {
 		c := proxyCfg{Redis: r.bool(), CSRFPerRequest: r.bool(), EncodeState: r.bool(), SkipProviderButton: r.intn(3) == 0, ForceJSON: r.intn(4) == 0,
 			SkipJwtBearer: r.bool(), PKCE: r.pick([]string{"", "S256", "plain"}), SkipNonce: r.intn(4) == 0, CookieSameSite: r.pick([]string{"", "lax", "strict", "none"}),
@@ -109,7 +114,7 @@ var weirdFwd = []string{"", ", 10.0.0.1", " ,", "[", "[]", "[::1]", "[::1", "]",
 func init() {
 	registerSuite("nopanic", func(c *suiteCtx) {
 		u := defaultUser()
-		cfgs := nopanicConfigs(c.rng.fork(), 39+10*c.scale)
+		cfgs := nopanicConfigs(c.rng.fork(), 43+10*c.scale)
 		perCfg := 700
 		if c.scale > 1 {
 			perCfg = 2500
@@ -167,6 +172,11 @@ func init() {
 				{Target: "/oauth2/userinfo", Cookie: sessionCookie}, {Target: cbTarget, Cookie: csrfCookie}, {Target: "/app/x", Header: http.Header{"Authorization": {bearer}}},
 				{Target: "/app/x", Header: http.Header{"Authorization": {basic}}}, {Target: "/oauth2/auth", Header: http.Header{"Authorization": {basic}}},
 				{Target: "/oauth2/sign_in", Method: "POST", Body: "username=bob&password=pw&rd=/x"}, {Target: "/oauth2/sign_out", Cookie: sessionCookie},
+				// the sign-in form submitted AGAIN while a session cookie is still presented (double submit, second tab, another user):
+				// its own earlier form session, an OAuth session, an aged one, a damaged one
+				{Target: "/oauth2/sign_in", Method: "POST", Body: "username=bob&password=pw&rd=/x", Cookie: formCookie}, {Target: "/oauth2/sign_in", Method: "POST", Body: "username=bob&password=pw&rd=/x", Cookie: sessionCookie},
+				{Target: "/oauth2/sign_in", Method: "POST", Body: "username=bob&password=pw&rd=/x", Cookie: old}, {Target: "/oauth2/sign_in", Method: "POST", Body: "username=bob&password=wrong&rd=/x", Cookie: formCookie},
+				{Target: "/oauth2/sign_in", Method: "POST", Body: "username=bob&password=pw&rd=/x", Cookie: tamperMid(sessionCookie)},
 				{Target: "/skip/x", Cookie: sessionCookie}, {Target: "/skip/x"}, {Target: "/app/x", Method: "OPTIONS"}, {Target: "/oauth2/start?rd=/x"},
 			}
 			for _, s := range seeds {
